@@ -1,5 +1,5 @@
 import ArgoVerif.Proofs.Future
-/- Proofs.Future3 — invariant preservation: lock acquisition (split for build parallelism). -/
+/- Proofs.Future3 — invariant preservation: lock acquisition by set / wait / reset (split for build parallelism). -/
 namespace ArgoVerif.Model.Future
 open ArgoVerif
 set_option maxHeartbeats 4000000
@@ -15,10 +15,13 @@ theorem acq_f_free (s s' : St) (a : Actor) (hs : stepAcq s a false = some s') : 
   · cases hs
   · cases hl : s.lock <;> simp_all
 
-theorem inv_stepAcq_f (s s' : St) (a : Actor) (h : Inv s) (hs : stepAcq s a false = some s') : Inv s' := by
+theorem inv_stepAcq_f_a (s s' : St) (a : Actor) (h : Inv s) (hs : stepAcq s a false = some s')
+    (hp : s.pc a = .setCalled ∨ s.pc a = .waitCalled ∨ s.pc a = .resetCalled) : Inv s' := by
   have hl := acq_f_free s s' a hs
   unfold stepAcq at hs
   simp only [Bool.false_eq_true, if_false] at hs
-  (repeat' (split at hs)) <;> close_tac h hs
+  split at hs
+  · cases hs
+  · rcases hp with hp | hp | hp <;> simp only [hp] at hs <;> close_tac h hs
 
 end ArgoVerif.Model.Future
